@@ -380,6 +380,8 @@ def tx(owner, content, signer=None, sig="ok"):
 
 
 def reg(owner, meta, ops=(), perm="owner", osig=None):
+    # an op that names the register's own address is the same bytes as one without an explicit address
+    ops = [{k: v for k, v in o.items() if not (k == "addr" and list(v) == [owner, meta])} for o in ops]
     return {"t": "reg", "owner": owner, "meta": meta, "perm": perm,
             "osig": {"by": owner} if osig is None else osig, "ops": list(ops)}
 
